@@ -62,7 +62,8 @@ def gen_grid(rng, kinds, N, allow_minmax=False):
         g = {"cls": "Density", "density": {"kind": rng.choice(["lin", "quad", "bump"]), "a": rnd(rng, 0.3, 4.0, 2)}}
     elif kind == "dense_edges":
         g = {"cls": "DenseEdges", "multiplier": rng.choice([3, 10]), "edge_frac": rng.choice([0.1, 0.2])}
-    if allow_minmax and rng.random() < 0.5:
+    if allow_minmax and rng.random() < 0.5 and g["cls"] in ("Uniform", "Geometric", "Free"):
+        # min / max are documented for UniformGrid, GeometricGrid and FreeGrid only
         if rng.random() < 0.7:
             g["min"] = rnd(rng, 0.01, 0.2, 3)
         if rng.random() < 0.7:
